@@ -208,6 +208,9 @@ pub enum HandleBox {
 }
 
 thread_local! {
+    /// per client: the broker address it obtained once and keeps publishing through
+    static BROKER0: RefCell<HashMap<usize, Addr<Broker<Topic<0>>>>> = RefCell::new(HashMap::new());
+    static BROKER1: RefCell<HashMap<usize, Addr<Broker<Topic<1>>>>> = RefCell::new(HashMap::new());
     pub static POOL: RefCell<HashMap<usize, HandleBox>> = RefCell::new(HashMap::new());
     /// context id -> actor id, learned when an actor's `started` runs
     pub static CTXMAP: RefCell<HashMap<u64, usize>> = RefCell::new(HashMap::new());
@@ -1091,9 +1094,34 @@ async fn exec_op(c: usize, op: Op) {
             PENDING.with(|p| p.borrow_mut().push(o));
             let r = match (j, via) {
                 (0, 0) => Broker::publish(Topic::<0> { m }).await,
-                (0, _) => Broker::<Topic<0>>::from_registry().await.publish(Topic::<0> { m }).await,
+                (0, 1) => Broker::<Topic<0>>::from_registry().await.publish(Topic::<0> { m }).await,
+                // an `Addr<Broker<T>>` obtained once and kept by this client (there is one broker per topic for good)
+                (0, _) => {
+                    let cached = BROKER0.with(|b| b.borrow().get(&c).cloned());
+                    let a = match cached {
+                        Some(a) => a,
+                        None => {
+                            let a = Broker::<Topic<0>>::from_registry().await;
+                            BROKER0.with(|b| b.borrow_mut().insert(c, a.clone()));
+                            a
+                        }
+                    };
+                    a.publish(Topic::<0> { m }).await
+                }
                 (_, 0) => Broker::publish(Topic::<1> { m }).await,
-                (_, _) => Broker::<Topic<1>>::from_registry().await.publish(Topic::<1> { m }).await,
+                (_, 1) => Broker::<Topic<1>>::from_registry().await.publish(Topic::<1> { m }).await,
+                (_, _) => {
+                    let cached = BROKER1.with(|b| b.borrow().get(&c).cloned());
+                    let a = match cached {
+                        Some(a) => a,
+                        None => {
+                            let a = Broker::<Topic<1>>::from_registry().await;
+                            BROKER1.with(|b| b.borrow_mut().insert(c, a.clone()));
+                            a
+                        }
+                    };
+                    a.publish(Topic::<1> { m }).await
+                }
             };
             PENDING.with(|p| p.borrow_mut().retain(|x| *x != o));
             emit(format!("bret {} {}", o, res_str(&r)));
